@@ -190,6 +190,50 @@ Proof.
     apply nn_add; apply nn_mul; assumption.
 Qed.
 
+(* what the boolean says, clause by clause (bounds at the two ends of the enclosure) *)
+Lemma cert_check_parts N k (clo chi : F) Vl thetal eo er :
+  cert_check N k clo chi Vl thetal eo er = true ->
+  let V := fun j => nthF (nth j Vl []) in
+  le clo chi /\ le 0 eo /\ le 0 er
+  /\ (forall j l, (j < k)%nat -> (l < k)%nat ->
+      le (dot N (V j) (V l) - delta j l) eo /\ le (- (dot N (V j) (V l) - delta j l)) eo)
+  /\ (forall j i, (j < k)%nat -> (i < N)%nat ->
+      (le (resid N clo (V j) (nthF thetal j) i) er /\ le (- resid N clo (V j) (nthF thetal j) i) er)
+      /\ (le (resid N chi (V j) (nthF thetal j) i) er /\ le (- resid N chi (V j) (nthF thetal j) i) er)).
+Proof.
+  unfold cert_check. intros H. cbv zeta.
+  repeat (apply andb_prop in H; destruct H as [H ?]).
+  match goal with Hg : gram_ok _ _ _ _ = true |- _ => rename Hg into HG end.
+  match goal with Hr : resid_ok _ _ _ _ _ _ _ = true |- _ => rename Hr into HR end.
+  match goal with Hr : leb clo chi = true |- _ => apply leb_le in Hr; rename Hr into Hcc end.
+  match goal with Hr : leb 0 eo = true |- _ => apply leb_le in Hr; rename Hr into Heo end.
+  match goal with Hr : leb 0 er = true |- _ => apply leb_le in Hr; rename Hr into Her end.
+  split; [exact Hcc|]. split; [exact Heo|]. split; [exact Her|]. split.
+  - intros j l Hj Hl. unfold gram_ok in HG.
+    apply absle_spec. apply (allb_spec _ _ (allb_spec _ _ HG j Hj) l Hl).
+  - intros j i Hj Hi. unfold resid_ok in HR.
+    pose proof (allb_spec _ _ (allb_spec _ _ HR j Hj) i Hi) as Hji. cbv beta in Hji.
+    apply andb_prop in Hji. destruct Hji as [Hlo Hhi].
+    apply absle_spec in Hlo. apply absle_spec in Hhi. split; assumption.
+Qed.
+
+(* residual bounds at both ends of [clo, chi] hold at every c in between (the residual is affine in c) *)
+Lemma bounds_between N (clo chi c er : F) (v : nat -> F) th i : le clo c -> le c chi ->
+  le (resid N clo v th i) er /\ le (- resid N clo v th i) er ->
+  le (resid N chi v th i) er /\ le (- resid N chi v th i) er ->
+  le (resid N c v th i) er /\ le (- resid N c v th i) er.
+Proof.
+  intros Hc1 Hc2 [Hlo1 Hlo2] [Hhi1 Hhi2]. split.
+  - rewrite (resid_affine N c clo v th i).
+    apply (affine_between clo chi c); try assumption.
+    rewrite <- (resid_affine N chi clo v th i). exact Hhi1.
+  - rewrite (resid_affine N c clo v th i).
+    apply (nonneg_eq (er - (- resid N clo v th i + (c - clo) * (- (hh N i * hh N i * v i))))); [unfold le; ring|].
+    apply (affine_between clo chi c (- resid N clo v th i) (- (hh N i * hh N i * v i)) er); try assumption.
+    unfold le. apply (nonneg_eq (er - - resid N chi v th i)); [|exact Hhi2].
+    rewrite (resid_affine N chi clo v th i). ring.
+Qed.
+
 Theorem cert_sound_thm N k (clo chi : F) Vl thetal eo er :
   cert_check N k clo chi Vl thetal eo er = true ->
   let V := fun j => nthF (nth j Vl []) in
@@ -198,27 +242,10 @@ Theorem cert_sound_thm N k (clo chi : F) Vl thetal eo er :
   /\ (forall c, le clo c -> le c chi -> forall j i, (j < k)%nat -> (i < N)%nat ->
       le (resid N c (V j) (nthF thetal j) i) er /\ le (- resid N c (V j) (nthF thetal j) i) er).
 Proof.
-  unfold cert_check. intros H. cbv zeta.
-  repeat (apply andb_prop in H; destruct H as [H ?]).
-  match goal with Hg : gram_ok _ _ _ _ = true |- _ => rename Hg into HG end.
-  match goal with Hr : resid_ok _ _ _ _ _ _ _ = true |- _ => rename Hr into HR end.
-  split.
-  - intros j l Hj Hl. unfold gram_ok in HG.
-    apply absle_spec. apply (allb_spec _ _ (allb_spec _ _ HG j Hj) l Hl).
-  - intros c Hc1 Hc2 j i Hj Hi. unfold resid_ok in HR.
-    pose proof (allb_spec _ _ (allb_spec _ _ HR j Hj) i Hi) as Hji. cbv beta in Hji.
-    apply andb_prop in Hji. destruct Hji as [Hlo Hhi].
-    apply absle_spec in Hlo. apply absle_spec in Hhi. destruct Hlo as [Hlo1 Hlo2], Hhi as [Hhi1 Hhi2].
-    set (v := nthF (nth j Vl [])) in *. set (th := nthF thetal j) in *.
-    split.
-    + rewrite (resid_affine N c clo v th i).
-      apply (affine_between clo chi c); try assumption.
-      rewrite <- (resid_affine N chi clo v th i). exact Hhi1.
-    + rewrite (resid_affine N c clo v th i).
-      apply (nonneg_eq (er - (- resid N clo v th i + (c - clo) * (- (hh N i * hh N i * v i))))); [unfold le; ring|].
-      apply (affine_between clo chi c (- resid N clo v th i) (- (hh N i * hh N i * v i)) er); try assumption.
-      unfold le. apply (nonneg_eq (er - - resid N chi v th i)); [|exact Hhi2].
-      rewrite (resid_affine N chi clo v th i). ring.
+  intros H. destruct (cert_check_parts N k clo chi Vl thetal eo er H) as [_ [_ [_ [HG HR]]]]. cbv zeta in *.
+  split; [exact HG|].
+  intros c Hc1 Hc2 j i Hj Hi. destruct (HR j i Hj Hi) as [Hlo Hhi].
+  apply (bounds_between N clo chi c); assumption.
 Qed.
 
 (* ---------------- small residual => near an eigenvalue (spectral decomposition as hypothesis) ---------------- *)
@@ -291,6 +318,21 @@ Proof.
   unfold le in Hn0. rewrite Ev0 in Hn0. apply (nonneg_eq (0 - n0)); [ring|exact Hn0].
 Qed.
 
+(* from the bounds (however obtained) to the eigenvalue statement *)
+Theorem eigenvalue_from_bounds_thm N (c theta eo er : F) (v : nat -> F) (U : nat -> nat -> F) (mu : nat -> F) :
+  le (- (dot N v v - 1)) eo -> lt eo 1 ->
+  (forall i, (i < N)%nat -> le (resid N c v theta i) er /\ le (- resid N c v theta i) er) ->
+  (forall m i, (m < N)%nat -> (i < N)%nat -> tmul N c (U m) i = mu m * U m i) ->
+  (forall x : nat -> F, dot N x x = sumf N (fun m => dot N (U m) x * dot N (U m) x)) ->
+  exists m, (m < N)%nat /\ le ((mu m - theta) * (mu m - theta) * (1 - eo)) (ofnat N * (er * er)).
+Proof.
+  intros HG Heo HR HU HP.
+  apply (residual_eigenvalue_thm N c theta v U mu); try assumption.
+  - apply sum_sq_bound. exact HR.
+  - unfold le in *. apply (nonneg_eq (eo - - (dot N v v - 1))); [ring|exact HG].
+  - apply nn_mul; [apply nonneg_ofnat|apply sq_nonneg].
+Qed.
+
 Theorem cert_eigenvalue_thm N k (clo chi c : F) Vl thetal eo er (U : nat -> nat -> F) (mu : nat -> F) :
   cert_check N k clo chi Vl thetal eo er = true -> le clo c -> le c chi -> lt eo 1 ->
   (forall m i, (m < N)%nat -> (i < N)%nat -> tmul N c (U m) i = mu m * U m i) ->
@@ -300,10 +342,8 @@ Theorem cert_eigenvalue_thm N k (clo chi c : F) Vl thetal eo er (U : nat -> nat 
 Proof.
   intros Hc Hc1 Hc2 Heo HU HP j Hj.
   destruct (cert_sound_thm N k clo chi Vl thetal eo er Hc) as [HG HR]. cbv zeta in HG, HR.
-  apply (residual_eigenvalue_thm N c (nthF thetal j) (nthF (nth j Vl [])) U mu); try assumption.
-  - apply sum_sq_bound. intros i Hi. apply (HR c Hc1 Hc2 j i Hj Hi).
-  - destruct (HG j j Hj Hj) as [_ H2]. unfold le in *. unfold delta in H2. rewrite Nat.eqb_refl in H2.
-    apply (nonneg_eq (eo - - (dot N (nthF (nth j Vl [])) (nthF (nth j Vl [])) - 1))); [ring|exact H2].
-  - apply nn_mul; [apply nonneg_ofnat|apply sq_nonneg].
+  apply (eigenvalue_from_bounds_thm N c (nthF thetal j) eo er (nthF (nth j Vl [])) U mu); try assumption.
+  - destruct (HG j j Hj Hj) as [_ H2]. unfold delta in H2. rewrite Nat.eqb_refl in H2. exact H2.
+  - intros i Hi. apply (HR c Hc1 Hc2 j i Hj Hi).
 Qed.
 End Cert.
